@@ -70,6 +70,15 @@ class Push:
         self.sim.turns.append(self.name)
         if self.sim.decide("writes_on_resume"):
             self.sim.write(self.name)
+        if self.sim.quits < 1 and self.name in self.sim.subs and self.sim.decide("quits_on_resume"):
+            # a finished producer unregisters itself (or its subchannel closes) from inside its own turn
+            self.sim.quits += 1
+            sc, p, kind = self.sim.subs.pop(self.name)
+            self.sim.log.append((self.name, "quit"))
+            if self.sim.decide("quit_by_close"):
+                self.sim.o.subchannel_closed(1, sc)
+            else:
+                self.sim.o.subchannel_unregisterProducer(sc)
 
     def stopProducing(self):
         self.signals.append("stop")
@@ -121,7 +130,8 @@ class Coop:
 
 
 class Sim:
-    def __init__(self, decisions=None):
+    def __init__(self, decisions=None, policy=None):
+        self.policy = policy
         self.log = []
         self.turns = []
         self.coop = Coop()
@@ -132,9 +142,14 @@ class Sim:
         self.seq = 0
         self.script = list(decisions) if decisions is not None else None
         self.taken = []
+        self.quits = 0
         self.transport_paused = True    # what the transport last told us (no connection = paused)
 
     def decide(self, what):
+        if self.policy is not None:
+            v = int(bool(self.policy(what)))
+            self.taken.append(v)
+            return bool(v)
         if self.script is not None:
             v = self.script.pop(0) if self.script else 0
         else:
@@ -316,7 +331,7 @@ class Rotation(Job):
 
     def run(self, decisions=None):
         # every producer writes on each turn and the transport pauses again from inside the first write of each resume
-        sim = Sim(decisions=[1] * 10000)
+        sim = Sim(policy=lambda what: what in ("writes_on_resume", "buffer_full_on_send"))
         sim.do(("connect",))
         for i in range(self.n):
             sim.do(("register", "push"))
